@@ -26,6 +26,7 @@ func init() {
 
 var brMasks = map[string]string{
 	//       0 rel 1 seq/randao 2 voters 3 pubkeys 4 params 5 chain 6 deposited 7 wd 8 proc 9 queue 10 class 11 txs
+	//       (derived: 12 group invariant with bit 2, 13 notices with bit 7, 14 threshold table with bit 0)
 	"all": "111111111111",
 	"C01": "111111111110",
 	"C02": "111111111110",
@@ -65,6 +66,7 @@ func runBridge(rng *Rng, n int, st *Stats, param string) ([]string, []any) {
 		}
 		w := setupBridge(r, st, ci)
 		w.focus = focus
+		w.ci = ci
 		w.history(nops)
 		sig := w.sig.String()
 		if !seen[sig] {
@@ -94,6 +96,62 @@ type pendingWd struct {
 	txs    []*btcTx
 	ids    []uint64
 	mined  map[int][2]uint64 // candidate index -> (height, tx index)
+}
+
+// nearMiss returns a script that differs from sc in one structural detail only (witness version opcode,
+// push opcode, one bit of the program, length): what a careless or hostile wallet / proposer could produce.
+func nearMiss(r *Rng, sc []byte) ([]byte, string) {
+	out := append([]byte{}, sc...)
+	if len(out) < 3 {
+		return out, "same"
+	}
+	switch r.Intn(6) {
+	case 0, 1: // other witness version, same program
+		if out[0] == 0 {
+			out[0] = byte(0x51 + r.Intn(16))
+		} else {
+			out[0] = []byte{0x00, 0x52, 0x60}[r.Intn(3)]
+		}
+		return out, "witness-version"
+	case 2: // other push opcode
+		out[1] = []byte{0x14, 0x20, 0x21, 0x13, 0x4c}[r.Intn(5)]
+		if out[1] == sc[1] {
+			out[1]++
+		}
+		return out, "push-opcode"
+	case 3:
+		out[2+r.Intn(len(out)-2)] ^= 1 << uint(r.Intn(8))
+		return out, "program-bit"
+	case 4:
+		return out[:len(out)-1], "truncated"
+	default:
+		return append(out, 0), "extended"
+	}
+}
+
+// thresholdTable records what the real Relayer.Threshold() answers for a range of group sizes; the model's
+// threshold is compared with it inside Coq.  A vote bitmap has 256 positions, so no proposal of a group
+// with more than 384 voters can be accepted at all: case 0 of a run sweeps 0..1023 completely, the other
+// cases sample.
+func (w *brWorld) thresholdTable() {
+	var ns []int
+	if w.ci == 0 {
+		for n := 0; n < 1024; n++ {
+			ns = append(ns, n)
+		}
+	} else {
+		for i := 0; i < 12; i++ {
+			ns = append(ns, w.r.Intn(400))
+		}
+	}
+	var rows []string
+	for _, n := range ns {
+		rel := relayertypes.Relayer{Voters: make([]string, n)}
+		rows = append(rows, cTuple(fmt.Sprint(n), fmt.Sprint(rel.Threshold())))
+	}
+	w.ops = append(w.ops, cTuple("(RThr "+cList(rows)+")", cTuple("0", "[]")))
+	w.recs = append(w.recs, lkOpRec{Kind: "threshold-table", Args: map[string]any{"sizes": len(ns)}})
+	w.st.Count("threshold-table-rows")
 }
 
 func (w *brWorld) msgSrvB() bitcointypes.MsgServer { return bitcoinkeeper.NewMsgServerImpl(w.e.Bitcoin) }
@@ -137,6 +195,7 @@ func (w *brWorld) history(nops int) {
 	nextWid := uint64(1 + r.Intn(3))
 	voted := func() uint64 { t, _ := w.e.Bitcoin.BlockTip.Peek(w.e.Ctx); return t }
 	srv := w.msgSrvB()
+	w.thresholdTable()
 
 	mine := func() {
 		h := w.mined + 1
@@ -276,6 +335,11 @@ func (w *brWorld) history(nops int) {
 			if version == 0 {
 				sc, tw := depositScriptV0(key, evm)
 				d.tweak = tw
+				if r.Chance(10) {
+					var how string
+					sc, how = nearMiss(r, sc)
+					w.st.Count("deposit-output-near-miss:" + how)
+				}
 				outs = []btcOut{{val, sc}}
 				if r.Chance(30) {
 					outs = append([]btcOut{{int64(r.Intn(5000)), scriptP2WPKH(r.Bytes(20))}}, outs...)
@@ -286,7 +350,13 @@ func (w *brWorld) history(nops int) {
 				if r.Chance(8) {
 					magic = []byte("XXXX")
 				}
-				outs = []btcOut{{val, scriptP2WPKH(key.H160)}, {0, scriptOpReturn(append(append([]byte{}, magic...), evm...))}}
+				pay := scriptP2WPKH(key.H160)
+				if r.Chance(8) {
+					var how string
+					pay, how = nearMiss(r, pay)
+					w.st.Count("deposit-output-near-miss:" + how)
+				}
+				outs = []btcOut{{val, pay}, {0, scriptOpReturn(append(append([]byte{}, magic...), evm...))}}
 			}
 			d.tx = mkTx(r, outs, r.Intn(2))
 			w.allTxOuts[string(d.tx.Txid)] = outs
@@ -815,6 +885,10 @@ func (w *brWorld) buildPayout(ids []uint64, change bool, minFee uint64) (*btcTx,
 		}
 		if r.Chance(8) {
 			sc = scriptP2WPKH(r.Bytes(20))
+		} else if r.Chance(8) {
+			var how string
+			sc, how = nearMiss(r, sc)
+			w.st.Count("change-output-near-miss:" + how)
 		}
 		outs = append(outs, btcOut{int64(r.Intn(100000)), sc})
 		if r.Chance(4) {
